@@ -1,6 +1,7 @@
 package avltree
 
 import (
+	"encoding/json"
 	"github.com/emirpasic/gods/v2/containers"
 	vl "github.com/emirpasic/gods/v2/zzvlib"
 	v "github.com/emirpasic/gods/v2/zzvsup"
@@ -393,4 +394,28 @@ func VHKeysValues() {
 func VHSnap() {
 	c := VGSmall()
 	containers.VSnapStep(containers.VSnap{C: c, Keys: c.Keys, Mutate: []func(){c.Clear, func() { c.Put(v.Int("mk"), v.Int("mv")) }, func() { c.Remove(v.Int("mk")) }}})
+}
+
+var _ = vl.Less
+
+func vJSON(c *Tree[int, int]) containers.VJSON {
+	return containers.VJSON{C: c, ToJSON: c.ToJSON, FromJSON: c.FromJSON,
+		Marshal: func() ([]byte, error) { return json.Marshal(c) },
+		Inv:     func() { VInv(c) },
+		Step:    func() { k, x := v.Int("sk"), v.Int("sx"); c.Put(k, x); y, ok := c.Get(k); v.Assert(v.And(ok, y == x), "C12:put-after-load") },
+		Fresh:   func() containers.VJSON { return vJSON(NewWith[int, int](vl.Cmp)) },
+		Object: true, Keys: c.Keys, Get: c.Get, Ref: func(ks, xs []int) ([]int, []int) { return vl.SortPairs(vl.LastPerKey(ks, xs)) },
+	}
+}
+
+// VHJSONRound: ToJSON / json.Marshal / FromJSON round trip from an arbitrary state (C11).
+func VHJSONRound() {
+	c := VGSmall()
+	containers.VJSONRound(vJSON(c))
+}
+
+// VHJSONLoad: FromJSON of an arbitrary document into an arbitrary prior state (C12, C17).
+func VHJSONLoad() {
+	c := VGSmall()
+	containers.VJSONLoad(vJSON(c))
 }
